@@ -49,7 +49,7 @@ func (k replyKind) String() string {
 type proto interface {
 	Name() string
 	XidBits() int
-	NewClient(conn net.PacketConn, T time.Duration, tries int, bufcap int, logf func(string)) (clientHandle, error)
+	NewClient(conn net.PacketConn, T time.Duration, tries int, bufcap int, logf func(string), variant int) (clientHandle, error)
 	BuildRequest(xid uint32, serial uint32) (req interface{}, wire []byte)
 	BuildReply(reqWire []byte, kind replyKind, serial uint32, altXid uint32) []byte
 	Inspect(wire []byte) pktInfo
@@ -103,8 +103,12 @@ func (v4proto) AcceptTyp() int     { return int(dhcpv4.MessageTypeOffer) }
 func (v4proto) Dest() *net.UDPAddr { return &net.UDPAddr{IP: net.IPv4(10, 9, 8, 7), Port: 6767} }
 func (v4proto) HasBufferCap() bool { return nclient4.SimHasBufferCap }
 
-func (v4proto) NewClient(conn net.PacketConn, T time.Duration, tries int, bufcap int, logf func(string)) (clientHandle, error) {
+func (v4proto) NewClient(conn net.PacketConn, T time.Duration, tries int, bufcap int, logf func(string), variant int) (clientHandle, error) {
 	opts := []nclient4.ClientOpt{nclient4.WithTimeout(T), nclient4.WithRetry(tries)}
+	if variant&1 != 0 {
+		// a configured (unicast) server address: irrelevant to calls that name their destination
+		opts = append(opts, nclient4.WithServerAddr(&net.UDPAddr{IP: net.IPv4(10, 9, 9, 9), Port: 67}))
+	}
 	if bufcap >= 0 {
 		opts = append(opts, nclient4.SimWithBufferCap(bufcap))
 	}
@@ -257,8 +261,14 @@ func (v6proto) Dest() *net.UDPAddr {
 }
 func (v6proto) HasBufferCap() bool { return nclient6.SimHasBufferCap }
 
-func (v6proto) NewClient(conn net.PacketConn, T time.Duration, tries int, bufcap int, logf func(string)) (clientHandle, error) {
+func (v6proto) NewClient(conn net.PacketConn, T time.Duration, tries int, bufcap int, logf func(string), variant int) (clientHandle, error) {
 	opts := []nclient6.ClientOpt{nclient6.WithTimeout(T), nclient6.WithRetry(tries)}
+	if variant&1 != 0 {
+		opts = append(opts, nclient6.WithLogDroppedPackets()) // (the default logger prints nothing)
+	}
+	if variant&2 != 0 {
+		opts = append(opts, nclient6.WithBroadcastAddr(&net.UDPAddr{IP: net.ParseIP("ff02::1:2"), Port: 547}))
+	}
 	if bufcap >= 0 {
 		opts = append(opts, nclient6.SimWithBufferCap(bufcap))
 	}
